@@ -27,6 +27,18 @@ def run(ctx):
         r3(ctx, facts, cfg)
         r4(ctx, facts, cfg)
         c06.r1(ctx, facts, cfg, "C08.R5")
+        # which queue kinds are 'bounded' / 'dropping' for the backend's report (exhaustive over QueueType; shared with C03)
+        from rules import c03
+        from rules.c09 import Renamed
+        c03.queue_kind_tables(Renamed(ctx, "C03.R7", "C08.R6"), facts, cfg)
+        # 'true exactly when it will be delivered': what the backend calls an empty queue before it exits / reclaims (= C02.R6); the
+        # bytes reserved are the bytes committed (= C04.R4); a logger removal request that was accepted is carried out (= C17.R3)
+        from rules import c02, c04, c17
+        bn = {m.base: m for m in facts.fns if m.config == cfg and m.cls == c02.CLS and not m.rec.get("ctor") and not m.rec.get("dtor")}
+        c02.check_empty_semantics(ctx, bn, rule="C08.R7")
+        if cfg == "A":
+            c04.reserve_commit(Renamed(ctx, "C04.R4", "C08.R8"), facts)
+        c17.r3(Renamed(ctx, "C17.R3", "C08.R9"), facts, cfg)
 
 
 def r1_r2(ctx, facts, cfg):
@@ -125,14 +137,32 @@ def r3(ctx, facts, cfg):
         a = atomic_op(strip(v, casts=True))
         if not (a and a["kind"] == "rmw" and is_this_field(a["obj"], "_failure_counter") and a["op"] in ("exchange", "fetch_sub", "fetch_and")):
             ok = False
+    # the reset value is zero; the early 'nothing to report' return is taken exactly when a load of the counter is zero
+    for r in rets:
+        v = g.node_ast(r).get("val")
+        a = atomic_op(strip(v, casts=True)) if const_val(v) != 0 else None
+        if a and a.get("op") == "exchange" and const_val(a.get("value")) != 0:
+            ok = False
+    zero_rets = [r for r in rets if const_val(g.node_ast(r).get("val")) == 0]
+    zt = []
+    for bid, b in g.blocks.items():
+        c = g.term_cond(bid)
+        nc = norm_cmp(c) if c is not None else None
+        if nc and nc[0] in ("==", "!=") and "0" in (nc[1], nc[2]) and any((atomic_op(x) or {}).get("kind") == "load" and is_this_field(atomic_op(x)["obj"], "_failure_counter") for x in walk(c)):
+            zt.append((bid, "T" if nc[0] == "==" else "F"))
+    if zero_rets:
+        ok = ok and bool(zt) and not g.exists_path([g.entry_node], zero_rets, avoid_edges=zt) and \
+            all(not g.exists_path([tnode(g, b)], [r for r in rets if r not in zero_rets], avoid_edges=[(b, other(l))]) for (b, l) in zt)
     stores = [n for n in f.walk() if (atomic_op(n) or {}).get("kind") == "store" and is_this_field(atomic_op(n)["obj"], "_failure_counter")]
     ctx.ob("C08.R3", "ThreadContext::get_and_reset_failure_counter:atomic-rmw", ok and nonzero >= 1 and not stores,
-           "the reported count is the value returned by an atomic exchange/fetch_sub that also resets it (no separate store: %d)" % len(stores), fn=f)
+           "the reported count is the value returned by an atomic exchange/fetch_sub that also resets it to zero (no separate store: %d); "
+           "'nothing to report' is returned exactly when a load of the counter is zero" % len(stores), fn=f)
     inc = facts.need("quill::detail::ThreadContext::increment_failure_counter", cfg)[0]
     ops = [atomic_op(n) for n in inc.walk() if atomic_op(n)]
-    ok = len(ops) == 1 and ops[0]["kind"] == "rmw" and ops[0]["op"] in ("fetch_add", "operator++", "operator+=") and is_this_field(ops[0]["obj"], "_failure_counter")
+    ok = len(ops) == 1 and ops[0]["kind"] == "rmw" and ops[0]["op"] in ("fetch_add", "operator++", "operator+=") and is_this_field(ops[0]["obj"], "_failure_counter") and \
+        (ops[0]["op"] == "operator++" or const_val(ops[0].get("value")) == 1)
     ctx.ob("C08.R3", "ThreadContext::increment_failure_counter:atomic-rmw", ok,
-           "the counter is incremented by one atomic read-modify-write", fn=inc)
+           "the counter is incremented by exactly one with one atomic read-modify-write", fn=inc)
 
 
 def r4(ctx, facts, cfg):
